@@ -116,3 +116,112 @@ func VH_C02_Stress() {
 	}
 	symCover("stressed")
 }
+
+// ---- C02.interleave: two calls on one engine under every interleaving at synchronisation points ----
+// Process-wide caches are cold at the start of every path (each path is a fresh run of the program),
+// so first-use windows are explored. The reference is the model: what each call returns serially.
+
+type vhC02Emb struct{ Slug string }
+type vhC02U struct {
+	vhC02Emb
+	Name string
+	priv int
+}
+type vhC02V struct {
+	Slug, Name string
+}
+
+func (u vhC02U) Label() string  { return "L:" + u.Name }
+func (u *vhC02V) Label() string { return "V:" + u.Name }
+
+// vhColdCaches empties the process-wide caches (set by the in-package file zz_c02_kern.go; the
+// symbolic engine starts every path with a fresh process anyway, native repetitions need it)
+var vhColdCaches = func() {}
+
+type vhC02IOp struct {
+	name string
+	run  func(e *Engine, x string) (string, error)
+	want func(x string) string
+}
+
+func vhC02Render(name string, obj func(x string) interface{}) func(e *Engine, x string) (string, error) {
+	return func(e *Engine, x string) (string, error) {
+		ctx := map[string]interface{}{"x": x}
+		if obj != nil {
+			ctx["u"] = obj(x)
+		}
+		return e.Render(name, ctx)
+	}
+}
+
+var vhC02IOps = []vhC02IOp{
+	{"attr-struct", vhC02Render("attr", func(x string) interface{} { return vhC02U{vhC02Emb{"s" + x}, x, 1} }), func(x string) string { return "[" + x + "|s" + x + "|L:" + x + "]" }},
+	{"attr-ptr", vhC02Render("attr", func(x string) interface{} { return &vhC02U{vhC02Emb{"s" + x}, x, 1} }), func(x string) string { return "[" + x + "|s" + x + "|L:" + x + "]" }},
+	{"attr-other-type", vhC02Render("attr", func(x string) interface{} { return &vhC02V{"t" + x, x} }), func(x string) string { return "[" + x + "|t" + x + "|V:" + x + "]" }},
+	{"attr-in-loop", vhC02Render("attrloop", func(x string) interface{} { return vhC02U{vhC02Emb{"s" + x}, x, 1} }), func(x string) string { return x + x }},
+	{"render-cached", vhC02Render("t", nil), func(x string) string { return "a" + x + "I" + x }},
+	{"render-uncached", vhC02Render("fresh", nil), func(x string) string { return "F" + x + "I" + x }},
+	{"render-relative-extends", vhC02Render("dir/child", nil), func(x string) string { return "[c" + x + "]" }},
+	{"render-relative-include", vhC02Render("other/page", nil), func(x string) string { return "P" + x }},
+	{"render-import", vhC02Render("useslib", nil), func(x string) string { return "(" + x + ")" }},
+	{"register-render", func(e *Engine, x string) (string, error) {
+		if err := e.RegisterString("u", "z{{ x }}"); err != nil {
+			return "", err
+		}
+		return e.Render("u", map[string]interface{}{"x": x})
+	}, func(x string) string { return "z" + x }},
+	{"load-render", func(e *Engine, x string) (string, error) {
+		t, err := e.Load("fresh")
+		if err != nil {
+			return "", err
+		}
+		return t.Render(map[string]interface{}{"x": x})
+	}, func(x string) string { return "F" + x + "I" + x }},
+	{"parse-render", func(e *Engine, x string) (string, error) {
+		t, err := e.ParseTemplate("p{{ x }}{% if x %}y{% endif %}")
+		if err != nil {
+			return "", err
+		}
+		return t.Render(map[string]interface{}{"x": x})
+	}, func(x string) string { return "p" + x + "y" }},
+	{"matches", vhC02Render("m", nil), func(x string) string {
+		if x == "a" {
+			return "M"
+		}
+		return "N"
+	}},
+	{"matches-i", vhC02Render("mi", nil), func(x string) string {
+		if x == "a" || x == "A" {
+			return "M"
+		}
+		return "N"
+	}},
+}
+
+// VH_C02_Interleave: thread 1 runs operation p with value x, thread 2 operation q with value y on one
+// engine; every interleaving at synchronisation points with at most SW voluntary switches; both
+// results are what the calls return serially.
+func VH_C02_Interleave() {
+	vhColdCaches()
+	e, _ := vhC02Engine()
+	e.RegisterString("attr", "[{{ u.Name }}|{{ u.Slug }}|{{ u.Label }}]")
+	e.RegisterString("attrloop", "{% for i in [1, 2] %}{{ u.Name }}{% endfor %}")
+	e.RegisterString("m", "{% if x matches '/^a/' %}M{% else %}N{% endif %}")
+	e.RegisterString("mi", "{% if x matches '/^a/i' %}M{% else %}N{% endif %}")
+	if symBool() {
+		e.SetCache(false)
+	}
+	if symBool() {
+		e.SetAutoReload(true)
+	}
+	p, q := symChoice(len(vhC02IOps)), symChoice(len(vhC02IOps))
+	x, y := symStringIn(1, "aAb"), symStringIn(1, "aAb")
+	symTag("ops:" + vhC02IOps[p].name + "+" + vhC02IOps[q].name)
+	var o1, o2 string
+	var e1, e2 error
+	symParallel(func() { o1, e1 = vhC02IOps[p].run(e, x) }, func() { o2, e2 = vhC02IOps[q].run(e, y) })
+	symCover("joined")
+	symAssert(e1 == nil && e2 == nil, "concurrent-call-no-error")
+	symAssert(o1 == vhC02IOps[p].want(x), "concurrent-call-equals-serial-call")
+	symAssert(o2 == vhC02IOps[q].want(y), "concurrent-call-equals-serial-call")
+}
